@@ -118,6 +118,15 @@ def gen_scenario(rng, ctype, r, c, F, sparse=0):
         sc.choose_entries()
         ok, kappa = sc.well_determined(KAPPA_MAX)
         if ok:
+            if sc.can_apply() and rng.random() < 0.25:
+                # unusual scales: a common receiver gain and reference waves
+                # recorded in other units (the device that comes out does not
+                # depend on either)
+                g = 10.0 ** rng.uniform(-7, 4)
+                for en in sc.enet:
+                    en.rx_gain = g
+                sc.a_scale = 10.0 ** rng.uniform(-7, 4)
+                sc.scaled = True
             return sc, kappa, attempt
     return None, None, attempt
 
@@ -270,6 +279,9 @@ def work(chunk_id, payload):
             part["distinct"].add(cell)
             k2 = "entry:%s%s" % (st.entry, "_m" if st.form == "m" else "")
             cnt[k2] = cnt.get(k2, 0) + 1
+        if getattr(sc, "scaled", False):
+            cnt["scaled_scenarios"] = cnt.get("scaled_scenarios", 0) + 1
+            part["distinct"].add(("scaled", sc.ctype, sc.r, sc.c, sc.form))
         k3 = "solved:%s:%dx%d:%s" % (sc.ctype, sc.r, sc.c, sc.form)
         cnt[k3] = cnt.get(k3, 0) + 1
         if len(part["samples"]) < 1:
@@ -306,6 +318,8 @@ def main():
              "applicable vnacal_new_add_* function with full/abbreviated "
              "matrices, NULL/identity/permuted port maps, const/scalar/vector "
              "parameters, m or a/b form; DUT = random complex matrix; "
+             "a quarter of the square / 1x2 / 2x1 scenarios with a common "
+             "receiver gain and reference waves scaled by 1e-7 .. 1e4; "
              "distinct = distinct (type, rows, cols, form, entry point, "
              "row/column abbreviation, port-map kind) cells exercised",
         min_events=20,
